@@ -3,7 +3,8 @@ sc3 API, in whichever mode the process was initialised) - see DESIGN.md E3.
 
 program = {'clocks': [{'tempo': x, 'beats': b|None}],
            'routines': {name: {'body': [op, ...], 'nest': 0|1|2}},
-           'top': [op, ...], 'tail': seconds}
+           'top': [op, ...], 'tail': seconds,
+           'abandon': [op, ...]}   (NRT) run before main.reset(), then top
 ops (JSON lists):
   ['log', tag]                      record logical time (and beats) here
   ['wait', d]                       yield d
@@ -17,6 +18,7 @@ ops (JSON lists):
                                     (RT: time.sleep; NRT: nothing)
   ['next', r]                       (top level) routine r is stepped by hand:
                                     r.next() from the main thread
+  ['tsleep', d]                     (top level, RT) the main thread waits d s
   ['msg', tag [, [lat, elem...]]]   addr.send_msg('/m', tag [, bundle-shaped list])
   ['bundle', lat, elems]            addr.send_bundle(lat, *elems); elems are
                                     ['/b', tag] or [sublat, elem...]
@@ -170,6 +172,10 @@ class Interp:
             import sc3.base.main as M
             if main is M.RtMain:
                 M.time.sleep(op[1])
+        elif k == 'tsleep':
+            # (top level, RT simulation) the main thread lets time pass
+            if getattr(self, 'sim', None) is not None:
+                self.sim.run_until(self.sim.now + op[1])
         elif k == 'next':
             # caller's logical time (= physical time for the main thread)
             with main._main_lock:       # one action, as Routine.next is
@@ -256,6 +262,12 @@ def run_nrt(prog):
     main.reset()
     it = Interp(prog)
     it.setup()
+    if prog.get('abandon'):
+        # statements whose pending tasks are dropped by main.reset() before
+        # the program proper starts (same clocks, routines of their own)
+        for op in prog['abandon']:
+            it.do(None, op)
+        main.reset()
     it.run_top()
     score = main.process(prog.get('tail', 0))
     out = {'trace': it.trace, 'score': score.list, 'raw': bytes(score.raw),
@@ -271,6 +283,9 @@ def run_rt(sim, prog, tape, horizon):
     from sc3.base import clock as clk
     sim.tape = list(tape)
     sim.tape_pos = 0
+    # no state of an earlier case leaks into this one
+    main._in_awake_call = False
+    main.current_tt = main.main_tt
     sim.total_jitter = 0.0
     sim.thread_errors = []
     clk.SystemClock.clear()
@@ -282,6 +297,7 @@ def run_rt(sim, prog, tape, horizon):
     iface._send = lambda msg, target=None: sent.append(
         (bytes(msg.dgram).hex(), list(target) if target else None))
     it = Interp(prog)
+    it.sim = sim
     try:
         it.setup()
         it.run_top()
@@ -292,6 +308,8 @@ def run_rt(sim, prog, tape, horizon):
         sim.settle()
         sim.threads = [t for t in sim.threads if t.state != 'finished']
     offset = clk.SystemClock._elapsed_osc_offset
+    it.rec(kind='end', current_is_main=main.current_tt is main.main_tt,
+           in_awake=bool(main._in_awake_call))
     return {'trace': it.trace, 'dgrams': sent, 't0': it.t0,
             'osc_offset': offset, 'jitter': sim.total_jitter,
             'tape_used': sim.tape_pos,
